@@ -153,6 +153,10 @@ func (cse *connectivityStateEvaluator) recordTransition(
 // subConnRef keeps reference to the real SubConn with its
 // connectivity state, affinity count and streams count.
 type subConnRef struct {
+	// mu protects subConn, lastResp, refreshing and refreshCnt: they are written by the balancer
+	// (refresh, swap) and by completion callbacks, and read by pickers from other goroutines.
+	// Lock order: gcpBalancer.mu before subConnRef.mu.
+	mu          sync.RWMutex
 	subConn     balancer.SubConn
 	stateSignal chan struct{} // This channel is closed and re-created when subConn or its state changes.
 	affinityCnt int32         // Keeps track of the number of keys bound to the subConn.
@@ -192,9 +196,29 @@ func (ref *subConnRef) deCallsInc() uint32 {
 }
 
 func (ref *subConnRef) gotResp() {
+	ref.mu.Lock()
 	ref.lastResp = time.Now()
-	atomic.StoreUint32(&ref.deCalls, 0)
 	ref.refreshCnt = 0
+	ref.mu.Unlock()
+	atomic.StoreUint32(&ref.deCalls, 0)
+}
+
+func (ref *subConnRef) getSubConn() balancer.SubConn {
+	ref.mu.RLock()
+	defer ref.mu.RUnlock()
+	return ref.subConn
+}
+
+func (ref *subConnRef) getLastResp() time.Time {
+	ref.mu.RLock()
+	defer ref.mu.RUnlock()
+	return ref.lastResp
+}
+
+func (ref *subConnRef) getRefreshCnt() uint32 {
+	ref.mu.RLock()
+	defer ref.mu.RUnlock()
+	return ref.refreshCnt
 }
 
 type gcpBalancer struct {
@@ -395,12 +419,14 @@ func (gb *gcpBalancer) getReadySubConnRef(boundKey string) (*subConnRef, bool) {
 }
 
 func (gb *gcpBalancer) getSubConnRoundRobin(ctx context.Context) *subConnRef {
+	gb.mu.RLock()
 	if len(gb.scRefList) == 0 {
+		gb.mu.RUnlock()
 		gb.newSubConn()
+		gb.mu.RLock()
 	}
 	scRef := gb.scRefList[atomic.AddUint32(&gb.rrRefId, 1)%uint32(len(gb.scRefList))]
 
-	gb.mu.RLock()
 	if state := gb.scStates[scRef.subConn]; state == connectivity.Ready {
 		gb.mu.RUnlock()
 		return scRef
@@ -497,7 +523,13 @@ func (gb *gcpBalancer) UpdateSubConnState(sc balancer.SubConn, scs balancer.SubC
 		delete(gb.scRefs, oldSc)
 		delete(gb.scStates, oldSc)
 		gb.scRefs[sc] = scRef
+		scRef.mu.Lock()
 		scRef.subConn = sc
+		scRef.lastResp = time.Now()
+		scRef.refreshing = false
+		scRef.refreshCnt++
+		scRef.mu.Unlock()
+		atomic.StoreUint32(&scRef.deCalls, 0)
 		// Keys bound (or temporarily mapped) to the old SubConn follow the scRef to the fresh one.
 		for k, v := range gb.affinityMap {
 			if v == oldSc {
@@ -509,10 +541,6 @@ func (gb *gcpBalancer) UpdateSubConnState(sc balancer.SubConn, scs balancer.SubC
 				gb.fallbackMap[k] = sc
 			}
 		}
-		scRef.deCalls = 0
-		scRef.lastResp = time.Now()
-		scRef.refreshing = false
-		scRef.refreshCnt++
 		gb.cc.RemoveSubConn(oldSc)
 	}
 
@@ -583,22 +611,24 @@ func (gb *gcpBalancer) UpdateSubConnState(sc balancer.SubConn, scs balancer.SubC
 // refresh initiates a new SubConn for a specific subConnRef and starts connecting.
 // If the refresh is already initiated for the ref, then this is a no-op.
 func (gb *gcpBalancer) refresh(ref *subConnRef) {
-	if ref.refreshing {
-		return
-	}
 	gb.mu.Lock()
 	defer gb.mu.Unlock()
+	ref.mu.Lock()
 	if ref.refreshing {
+		ref.mu.Unlock()
 		return
 	}
 	ref.refreshing = true
+	ref.mu.Unlock()
 	sc, err := gb.cc.NewSubConn(
 		gb.addrs,
 		balancer.NewSubConnOptions{HealthCheckEnabled: healthCheckEnabled},
 	)
 	if err != nil {
 		gb.log.Errorf("failed to create a replacement SubConn with NewSubConn: %v", err)
+		ref.mu.Lock()
 		ref.refreshing = false
+		ref.mu.Unlock()
 		return
 	}
 	gb.refreshingScRefs[sc] = ref
